@@ -16,6 +16,7 @@ import (
 	"github.com/ipfs/boxo/ipld/unixfs/importer/trickle"
 	"github.com/ipfs/go-cid"
 	format "github.com/ipfs/go-ipld-format"
+	udata "github.com/ipfs/go-unixfsnode/data"
 	"github.com/ipfs/go-unixfsnode/data/builder"
 	dagpb "github.com/ipld/go-codec-dagpb"
 	cidlink "github.com/ipld/go-ipld-prime/linking/cid"
@@ -350,3 +351,5 @@ func describeOpts(o refOpts) string {
 	}
 	return strings.Join(p, "+")
 }
+
+func decodeUD(b []byte) (udata.UnixFSData, error) { return udata.DecodeUnixFSData(b) }
